@@ -200,7 +200,7 @@ class Real:
                     for n, w in self.problem.workers.items():
                         self.workers.setdefault(n, w)
         elif op == "select":
-            kw = dict(list_of_workers=[self.workers[w] for w in d["workers"]],
+            kw = dict(list_of_workers=[self.workers[w] if w in self.workers else self.cumuls[w] for w in d["workers"]],
                       nb_workers_to_select=d.get("n", 1), kind=d.get("kind", "exact"))
             if d.get("name") is not None:
                 kw["name"] = d["name"]
